@@ -40,6 +40,61 @@ pub fn repl_config(replica: u64) -> ReplicationConfig {
     ReplicationConfig { enabled: true, replica_id: replica, consistency_level: ConsistencyLevel::Eventual, gossip_interval_ms: 100, peers: vec![], replication_factor: 3, partitioned_mode: false, selective_gossip: false, virtual_nodes_per_physical: 50 }
 }
 
+impl C11 {
+    /// One hot key with more than ten thousand successive values in a dozen segments (no compaction yet): the
+    /// store recovers them all, and so must a node that is started on it - whatever queue lies in between.
+    fn run_long_history(&self, src: &mut Src) -> RunReport {
+        use redis_sim::redis::SDS;
+        use redis_sim::replication::lattice::ReplicaId;
+        use redis_sim::replication::state::ShardReplicaState;
+        let mut rep = RunReport::default();
+        rep.probe("long_history_over_10000_updates_of_one_key");
+        let n = 10_200 + src.below(2_500) as usize;
+        let per_seg = 700 + src.below(600) as usize;
+        let seed = src.u64_any();
+        let viol: Option<(String, String)> = rt::block_on(seed, async move {
+            let mut w = ShardReplicaState::new(ReplicaId::new(1), ConsistencyLevel::Eventual);
+            let store = SimStore::new(); store.set_record(false);
+            let clock = SimClock::new(1_700_000_000_000);
+            let wcfg = WriteBufferConfig { flush_interval: Duration::from_millis(50), max_size_bytes: 1 << 24, max_deltas: 100_000, backpressure_threshold_bytes: 1 << 26, compression_enabled: false };
+            let mut p = match StreamingPersistence::with_clock(Arc::new(store.clone()), PREFIX.to_string(), 1, wcfg, clock.clone()).await { Ok(p) => p, Err(e) => return Some(("C11/setup".to_string(), e.to_string())) };
+            let mut last = None;
+            for i in 0..n {
+                let d = w.record_write("hits".to_string(), SDS::from_str(&format!("{}", i + 1)), None);
+                last = Some(d.value.clone());
+                if let Err(e) = p.push(d) { return Some(("C11/setup-push".to_string(), e.to_string())); }
+                if (i + 1) % per_seg == 0 || i + 1 == n { if let Err(e) = p.flush().await { return Some(("C11/setup-flush".to_string(), e.to_string())); } }
+            }
+            let want = proj_s(last.as_ref().expect("n > 0"));
+            let rm = RecoveryManager::new(store.clone(), PREFIX, 1);
+            match rm.recover().await {
+                Ok(r) => { let got = fold_impl(r.checkpoint_state.as_ref(), r.deltas.iter()); if got.get("hits").map(proj_s) != Some(want.clone()) { return Some(("C11/recover/state-differs".to_string(), format!("{} updates of one key in {} segments: recover() folds to {:?}, expected {}", n, n.div_ceil(per_seg), got.get("hits").map(proj_s), want))); } }
+                Err(e) => return Some(("C11/recover/error".to_string(), e.to_string())),
+            }
+            clock.publish();
+            let node = ReplicatedShardedState::new(repl_config(1));
+            let integ = StreamingIntegration::with_store(Arc::new(store.clone()), StreamingConfig { prefix: PREFIX.to_string(), ..StreamingConfig::default() }, 1);
+            let mut res = None;
+            for round in 0..2 {
+                if let Err(e) = integ.recover(&node).await { res = Some(("C11/integration-recover/error".to_string(), e.to_string())); break; }
+                let snap: BTreeMap<String, ReplicatedValue> = node.snapshot_state().await.into_iter().collect();
+                if snap.get("hits").map(proj_s) != Some(want.clone()) {
+                    res = Some(("C11/node/state-differs".to_string(), format!("{} updates of one key in {} segments: the node started on the store (round {}) holds {:?} for it, expected {}", n, n.div_ceil(per_seg), round + 1, snap.get("hits").map(proj_s), want)));
+                    break;
+                }
+            }
+            redis_sim::production::verif_hooks::clock::clear();
+            res
+        });
+        if let Some((k, m)) = viol { rep.violate(k, m); }
+        rep.evals = 3;
+        rep.nontrivial = true;
+        rep.fingerprint = fnv(0x11, &[(n % 251) as u8, (per_seg % 251) as u8]);
+        rep.sample = Some(json!({"mode": "long history", "updates_of_one_key": n, "updates_per_segment": per_seg}));
+        rep
+    }
+}
+
 impl Property for C11 {
     fn id(&self) -> &'static str { "C11" }
     fn level(&self) -> &'static str { "exploration" }
@@ -54,6 +109,7 @@ impl Property for C11 {
 
     fn run(&self, src: &mut Src, ctx: &RunCtx) -> RunReport {
         let mut rep = RunReport::default();
+        if src.chance(1, 1500) { return self.run_long_history(src); }
         let scfg = StreamCfg { nrep: 1 + src.below(3) as usize, nkeys: 1 + src.below(4) as usize, max_ops: 16, hashes: src.chance(1, 2), type_changes: false, deletes: true, expiry: src.chance(1, 3) };
         let t0 = 1_700_000_000_000u64;
         let (stream, t_end) = gen_stream(src, &scfg, t0);
